@@ -1165,7 +1165,7 @@ var attribution = []string{"cache.", "util/cacheutil."}
 const roundsPerChild = 17 // one child process = every configuration once
 
 func numRounds(r *vf.Run) int {
-	n := r.N(17*3, 17*18) // every configuration 3 / 18 times (capacities, goroutine and key counts redrawn each time)
+	n := r.N(17*3, 17*10) // every configuration 3 / 10 times (capacities, goroutine and key counts redrawn each time)
 	if v, err := strconv.Atoi(os.Getenv("C11_ROUNDS")); err == nil && v > 0 {
 		n = v // development only (timing experiments); a run below the floor exits 3
 	}
@@ -1407,5 +1407,5 @@ func main() {
 		"each case is one round: a fresh cache of one configuration (directory cache x {Direct,SyncAdd,FadvDontNeed} x {layer.newCache wiring, default wiring} or the memory cache; LRU capacities 1-4), "+
 			"8-32 goroutines x 30-90 scripted ops over a key set larger than both LRU capacities, all drawn from the seed; "+
 			"non-trivial = the round fully verified >=10 hits, among them values written by another goroutine, hits from every tier the configuration serves from (memory LRU and file for non-direct directory caches, file for direct ones), and re-read at least one Reader held open across other operations; distinct by round script",
-		15, 90, body)
+		15, 50, body)
 }
